@@ -449,7 +449,12 @@ impl<T: 'static> ArcAsyncDerived<T> {
         }
 
         // notify reactive subscribers that we're not loading any more
-        for sub in (&inner.read().or_poisoned().subscribers).into_iter() {
+        //
+        // notify a snapshot taken under the lock, not under it: a subscriber that runs
+        // synchronously when it is marked (an `ImmediateEffect`) clears its sources first,
+        // which takes this lock for writing
+        let subs = inner.read().or_poisoned().subscribers.clone();
+        for sub in subs {
             sub.mark_dirty();
         }
 
